@@ -13,14 +13,56 @@ INFO = {
 def _getput(tier):
     nmax, stall = (3, 2) if tier == "quick" else (6, 3)
     slen = nmax + stall + 1
-    du = max(slen, nmax + 4) + 3
     out = []
     for op in ("GET", "PUT", "GET_ATMOST", "PUT_ATMOST"):
-        out.append(mk("c17_%s_n%d" % (op.lower(), nmax), "C17/c17_getput.c", CORE,
-                      {"OP_" + op: None, "NMAX": nmax, "STALL": stall},
-                      default_unwind=du, fp_removal=True))
+        for kind in ("octet", "chunk"):
+            d = {"OP_" + op: None, "NMAX": nmax, "STALL": stall}
+            if kind == "octet":
+                d["KIND_OCTET"] = None
+            # retry loop of the function under test: one round per driver call
+            # (chunk driver) or one round in total (octet driver: the adaptor
+            # loop does the rounds) + the round in which a breach is answered
+            outer = slen + 2 if kind == "chunk" else 3
+            uw = {"c17_script_ok": slen + 1, "c17_drv_init": slen + 1, "c17_call": nmax + 1,
+                  "c17_same": nmax + 1, "c17_frame": nmax + 5, "harness": nmax + 5,
+                  "source_get_chunk": outer, "sink_put_chunk": outer,
+                  "source_adapt": slen + 2, "sink_adapt": slen + 2}
+            out.append(mk("c17_%s_%s_n%d" % (op.lower(), kind, nmax), "C17/c17_getput.c", CORE, d,
+                          unwind=uw, default_unwind=2, fp_removal=True))
+    return out
+
+
+STS_OPS = ("CBC", "SOME", "ATMOST", "SOME_AUX", "ATMOST_AUX", "N_CBC", "N", "N_AUX",
+           "DRAIN_CBC", "DRAIN", "DRAIN_AUX")
+
+
+def _sts(tier):
+    nmax, stall, auxmax = (3, 2, 3) if tier == "quick" else (5, 3, 4)
+    slen = (nmax + 1) + stall + 1
+    out = []
+    for op in STS_OPS:
+        for sk in ("octet", "chunk"):
+            for kk in ("octet", "chunk"):
+                d = {"OP_" + op: None, "NMAX": nmax, "STALL": stall, "AUXMAX": auxmax}
+                if sk == "octet":
+                    d["SRC_OCTET"] = None
+                if kk == "octet":
+                    d["SNK_OCTET"] = None
+                aux = op.endswith("_AUX")
+                per_op = (auxmax if aux else 1) + stall + 3
+                uw = {"c17_script_ok": slen + 1, "c17_drv_init": slen + 1,
+                      "c17_call": (auxmax if aux else 1) + 1,
+                      "c17_same": nmax + 2, "c17_frame": auxmax + 5, "harness": max(auxmax + 5, nmax + 2),
+                      "memcpy": 33, "memmove": auxmax + 1,
+                      "source_get_chunk": 3 if sk == "octet" else per_op,
+                      "sink_put_chunk": 3 if kk == "octet" else per_op,
+                      "source_adapt": per_op, "sink_adapt": per_op}
+                for f in ("sts_n_cbc", "sts_drain_cbc", "sts_n", "sts_drain", "sts_n_aux", "sts_drain_aux"):
+                    uw[f] = slen + 2
+                out.append(mk("c17_sts_%s_%s_%s_n%d" % (op.lower(), sk, kk, nmax), "C17/c17_sts.c", CORE, d,
+                              unwind=uw, default_unwind=2, fp_removal=True))
     return out
 
 
 def instances(tier):
-    return _getput(tier)
+    return _getput(tier) + _sts(tier)
